@@ -6,7 +6,9 @@ if ! git diff --quiet; then echo "/repo has uncommitted changes; refusing"; exit
 git apply "$P" || { echo "patch does not apply"; exit 2; }
 trap 'git -C /repo checkout -- . ' EXIT
 cd /verif
+export HT_EVIDENCE_DIR=/verif/build/evidence_seeded   # trials never overwrite the evidence of the unchanged tree
 for c in "$@"; do
   out=$(VERIF_SEED=${VERIF_SEED:-20260930} ./check $c --tier ${TIER:-quick} 2>/dev/null | grep -v KNOWN-FINDING | tail -2 | tr '\n' ' ')
-  echo "$c: $out"
+  fam=$(echo "$out" | grep -o 'replay=[^ ]*' | head -1 | cut -d= -f2 | xargs -r python3 -c 'import json,sys; j=json.load(open(sys.argv[1])); print("family=%s phase=%s" % (j.get("family"), j.get("phase")))' 2>/dev/null)
+  echo "$c: $out $fam"
 done
